@@ -584,6 +584,9 @@ def run(tier, seed):
     # code -> spec: where the real vector_to_grads puts a flat vector, and the flat read-back of parameters set by name
     import layout_trace
     layout_trace.phase(chk, tier, random.Random(seed + 77))
+    # code -> spec: the positive phase of a batch is the mean of the rows' own gradients, however it is grouped
+    import groupmean_trace
+    groupmean_trace.phase(chk, tier, random.Random(seed + 78), {"grad"})
     fd_aux(chk, tier, rng, seed)
     # negative controls: corrupted tables / templates must be flagged by the same comparators
     import copy
